@@ -5,7 +5,7 @@ import Rio.Model.Filters
 -/
 namespace Rio
 
-inductive GitMode | dir | regular | deprecated | executable | symlink | submodule | other
+inductive GitMode | dir | regular | deprecated | executable | symlink | submodule | oddRegular | oddExecutable | other
 deriving DecidableEq, Repr, Inhabited
 
 structure GitEntry where
@@ -33,6 +33,9 @@ def gitEntryMeta (e : GitEntry) : GitRes Meta :=
     | .dir => .ok { base with kind := .dir, perms := 0o755 }
     | .regular => .ok { base with kind := .file, perms := 0o644 }
     | .deprecated => .ok { base with kind := .file, perms := 0o644 }
+    -- any other mode of a regular file (100775, 100600, …) is canonicalised by its owner-execute bit, as git does
+    | .oddRegular => .ok { base with kind := .file, perms := 0o644 }
+    | .oddExecutable => .ok { base with kind := .file, perms := 0o755 }
     | .executable => .ok { base with kind := .file, perms := 0o755 }
     | .symlink => .ok { base with kind := .symlink, perms := 0o644, linkname := e.blob }
     | .submodule => .ok { base with kind := .dir, perms := 0o755 }   -- as placed for a nested gitlink
